@@ -180,6 +180,17 @@ def validate_trace(trace_module, cfg, trace_path, timeout=1800, name=None):
     raise ToolError("trace validation did not complete:\n" + out[-4000:])
 
 
+def apalache_inductive(module_path, init, ind_init, inv, timeout=900):
+    """inductive invariant with Apalache (unbounded integers): Init => Inv, and Inv /\\ Next => Inv'"""
+    d = os.path.dirname(module_path)
+    out = workdir("apalache")
+    for args in (["--init=" + init, "--inv=" + inv, "--length=0"], ["--init=" + ind_init, "--inv=" + inv, "--length=1"]):
+        rc, o = sh(["apalache-mc", "check", "--out-dir=" + out] + args + [os.path.basename(module_path)], cwd=d, timeout=timeout)
+        if "EXITCODE: OK" not in o:
+            return False, o[-1500:]
+    return True, ""
+
+
 # ----------------------------------------------------------------------------- evidence / findings
 
 def write_evidence(pid, tier, seed, level, coverage, wall_s, violations=0, assumptions=None):
